@@ -7,6 +7,7 @@ Module for checking %-formatted and .format()-formatted strings.
 import ast
 import enum
 import re
+import sys
 from collections import defaultdict
 from collections.abc import Iterable, Sequence
 from dataclasses import dataclass, field
@@ -110,7 +111,8 @@ class ConversionSpecifier:
     def _maybe_decode(cls, string: Union[str, bytes]) -> str:
         """We want to treat all fields as text even on a bytes pattern for simplicity."""
         if isinstance(string, bytes):
-            return string.decode("ascii")
+            # mapping keys can hold any byte
+            return string.decode("ascii", "backslashreplace")
         else:
             return string
 
@@ -121,8 +123,11 @@ class ConversionSpecifier:
             raw = raw.decode("ascii")
         if raw == "*":
             return "*"
-        else:
+        try:
             return int(raw)
+        except ValueError:
+            # more digits than int() accepts (sys.get_int_max_str_digits())
+            return sys.maxsize
 
     def lint(self) -> Iterable[str]:
         """Finds any errors in this specifier."""
@@ -672,7 +677,8 @@ def _parse_replacement_field(state: _ParserState) -> Union[str, ReplacementField
     arg_name_str = "".join(arg_name_chars)
     if not arg_name_str:
         arg_name = None
-    elif arg_name_str.isdigit():
+    elif arg_name_str.isascii() and arg_name_str.isdigit():
+        # str.isdigit() is also true for characters like "²", which int() rejects
         arg_name = int(arg_name_str)
     else:
         arg_name = arg_name_str
